@@ -173,4 +173,76 @@ def auxTable : List (String × String) :=
    ("KLCrossEntCCGradient", "gradKLCECC"), ("HuberGradient", "gradHuber"),
    ("GroupL1Gradient", "gradGroupL1"), ("RosenbrockGradient", "rosen")]
 
+/-! ### Complex doubles (round 4): the programs are polymorphic in the scalar type; the
+arithmetic-only bodies are executed at `K = CF` and compared with the real code on `cn` /
+complex `uniform_discr` spaces. -/
+
+structure CF where
+  re : Float
+  im : Float
+
+instance : Add CF := ⟨fun a b => ⟨a.re + b.re, a.im + b.im⟩⟩
+instance : Sub CF := ⟨fun a b => ⟨a.re - b.re, a.im - b.im⟩⟩
+instance : Neg CF := ⟨fun a => ⟨-a.re, -a.im⟩⟩
+instance : Mul CF := ⟨fun a b => ⟨a.re * b.re - a.im * b.im, a.re * b.im + a.im * b.re⟩⟩
+/-- NumPy's complex division (Smith's algorithm). -/
+instance : Div CF := ⟨fun a b =>
+  if b.re.abs >= b.im.abs then
+    if b.re == 0.0 && b.im == 0.0 then ⟨a.re / b.re.abs, a.im / b.im.abs⟩
+    else
+      let rat := b.im / b.re
+      let scl := 1.0 / (b.re + b.im * rat)
+      ⟨(a.re + a.im * rat) * scl, (a.im - a.re * rat) * scl⟩
+  else
+    let rat := b.re / b.im
+    let scl := 1.0 / (b.re * rat + b.im)
+    ⟨(a.re * rat + a.im) * scl, (a.im * rat - a.re) * scl⟩⟩
+instance : OfNat CF 0 := ⟨⟨0.0, 0.0⟩⟩
+instance : OfNat CF 1 := ⟨⟨1.0, 0.0⟩⟩
+
+def cOfF (x : Float) : CF := ⟨x, 0.0⟩
+def nanC : CF := ⟨nanF, nanF⟩
+
+/-- The bodies that use ring/field arithmetic only (no `abs`, `max`, `sqrt`, order, norm …):
+the ones executed at `K = CF`. -/
+def arithOnly : ProxId → Bool
+  | .ccL2Sq _ _ | .l2Sq _ _ | .scaling | .lincombOp | .multiply | .constant | .zero => true
+  | .box false false => true
+  | _ => false
+
+/-- `Fns CF`: only the constants are used by the `arithOnly` bodies (the driver refuses every
+other id at `CF`); the remaining fields act on the real part. -/
+def complexFns : Fns CF where
+  abs := fun a => cOfF (Float.sqrt (a.re * a.re + a.im * a.im))
+  sign := fun a => a
+  sqrt := fun a => cOfF (Float.sqrt a.re)
+  square := fun a => a * a
+  exp := fun a => cOfF (Float.exp a.re)
+  lambertw := fun a => a
+  max := fun a b => if a.re >= b.re then a else b
+  min := fun a b => if a.re <= b.re then a else b
+  pow := fun a => a * a
+  lt := fun a b => a.re < b.re
+  le := fun a b => a.re <= b.re
+  truthy := fun a => a.re != 0.0 || a.im != 0.0
+  ofBool := fun b => if b then cOfF 1.0 else cOfF 0.0
+  inf := cOfF (1.0 / 0.0)
+  half := cOfF 0.5
+  two := cOfF 2.0
+  four := cOfF 4.0
+  norm := fun _ => nanC
+  sum := fun _ => nanC
+  invSize := nanC
+  pwnorm := fun v => v
+  pdiv := fun a _ => a
+  sortAsc := fun v => v
+  rev := fun v => v
+  cumAvg := fun _ v => v
+  lastNonneg := fun _ => nanC
+  toIdx := fun _ => 0
+  argsortDesc := fun v => v
+  take := fun v _ => v
+  wtau := fun _ v _ => v
+  bidx := fun k => k
+
 end OdlModel.ProxFloat
